@@ -13,3 +13,9 @@ pub use server::{RenetServer, ServerEvent};
 pub use bytes::Bytes;
 
 pub type ClientId = u64;
+
+/// Re-exports of the wire format for external verification harnesses (feature `verif_hooks`).
+#[cfg(feature = "verif_hooks")]
+pub mod verif {
+    pub use crate::packet::{Packet, SerializationError, Slice, SLICE_SIZE};
+}
